@@ -67,7 +67,8 @@ impl Gen {
         let m = self.m;
         self.t += 1;
         let x = match r {
-            Regime::Up => self.x * 1.01 + 0.01 * m,
+            // monotone up, capped at 10^6 m (then level) so that long runs never overflow
+            Regime::Up => (self.x * 1.01 + 0.01 * m).min(1e6 * m),
             Regime::Down => (self.x * 0.99).max(m * 1e-3),
             Regime::Tick => {
                 if i % 2 == 0 {
@@ -116,15 +117,10 @@ impl Gen {
             }
             Regime::Outlier => self.x,
             Regime::Stair => {
-                if i % 2 == 1 {
-                    self.x
-                } else {
-                    match (i / 2) % 3 {
-                        0 => self.x * 1.02,
-                        1 => self.x * 1.01,
-                        _ => self.x * 0.975,
-                    }
-                }
+                // triangle wave between 100 m and 200 m, one move every second step: stays inside the band
+                let j = (self.t / 2) % 40;
+                let tri = if j < 20 { j } else { 40 - j };
+                m * (100.0 + 5.0 * tri as f64)
             }
         };
         if r == Regime::Outlier {
